@@ -7,6 +7,7 @@ import (
 	"strings"
 
 	"github.com/grindlemire/go-lucene/internal/lex"
+	"github.com/grindlemire/go-lucene/internal/verifhook"
 	"github.com/grindlemire/go-lucene/pkg/lucene/expr"
 	"github.com/grindlemire/go-lucene/pkg/lucene/reduce"
 )
@@ -57,6 +58,7 @@ type parser struct {
 
 func (p *parser) parse() (e *expr.Expression, err error) {
 	for {
+		verifhook.ParseIter(len(p.stack), len(p.nonTerminals))
 		next := p.lex.Peek()
 		if p.shouldAccept(next) {
 			if len(p.stack) != 1 {
@@ -94,9 +96,11 @@ func (p *parser) parse() (e *expr.Expression, err error) {
 
 				p.stack = append(p.stack, implAnd)
 				p.nonTerminals = append(p.nonTerminals, implAnd)
+				verifhook.ImplicitAnd()
 			}
 
 			tok := p.shift()
+			verifhook.Shift(int(tok.Typ), lex.IsTerminal(tok))
 			if lex.IsTerminal(tok) {
 				// if we have a terminal parse it and put it on the stack
 				lit, err := parseLiteral(tok)
@@ -215,6 +219,7 @@ func (p *parser) shouldAccept(next lex.Token) bool {
 
 func (p *parser) reduce() (err error) {
 	top := []any{}
+	before := len(p.stack)
 	for {
 		if len(p.stack) == 0 {
 			return fmt.Errorf("error parsing, no items left to reduce, current state: %v", top)
@@ -235,6 +240,7 @@ func (p *parser) reduce() (err error) {
 		if reduced {
 			// if we successfully reduced re-add it to the top of the stack and return
 			p.stack = append(p.stack, top...)
+			verifhook.Reduce(before, len(p.stack))
 			return nil
 		}
 	}
